@@ -63,7 +63,9 @@ Step ==
                          \cup Iff(e.step = "start-nodata" /\ e.returned /\ (e.err = "" \/ e.state # "Inactive"), "C10_failed_start_clean")
                          \cup Iff(e.step = "start-data" /\ e.returned /\ (e.err # "" \/ e.state # "Active"), "C10_failed_start_clean")
                          \cup Iff(e.step \in {"stop", "stop2"} /\ e.returned /\ e.err # "", "C10_stop_returns")
-                         \cup Iff(e.step \in {"after-stop", "end"} /\ (e.state # "Inactive" \/ ~quiet), "C10_workers_exit")
+                         \cup Iff(e.step \in {"after-stop", "end", "after-selfend"} /\ (e.state # "Inactive" \/ ~quiet), "C10_workers_exit")
+                         \cup Iff(e.step \in {"after-stop", "end", "after-selfend"} /\ e.writing, "C10_writing_stopped")
+                         \cup Iff(e.step = "write-start" /\ e.returned /\ (e.err # "" \/ ~e.writing), "C10_restartable")
                          \cup Iff(e.step = "restart" /\ e.returned /\ (e.err # "" \/ e.state # "Active"), "C10_restartable"), e.scen)
             /\ UNCHANGED scen
 
